@@ -175,6 +175,11 @@ def _single_faults(ctx, rep, base):
             hint = "C07:marker-payload-unreadable-target-not-under-data"
         elif op == "list_files":
             hint = "C07:raise-after-delete"
+        if not outcome.startswith("raise") and op in ("read_file", "open_file", "exists", "list_files") and not arg.startswith("metadata/inflight/") and (
+                arg == "metadata.version-hint.text" or arg.startswith("metadata/") or op == "list_files"):
+            # the pointer, a metadata file, a manifest (list) or a listing could not be read: what is reachable is not known
+            rep.violate("C07:untrusted-input-not-raised", f"{what}: the collection returned normally although {op}({arg}) failed "
+                        f"({(exc or Injected).__name__})", {"kind": "single-fault", "call": k, "op": op, "arg": arg, "error": (exc or Injected).__name__})
         _judge(rep, what, {"kind": "single-fault", "call": k, "op": op, "arg": arg, "error": (exc or Injected).__name__}, before, _files(path), outcome, reach, protected, hint)
     shutil.rmtree(snap)
     shutil.rmtree(path, ignore_errors=True)
